@@ -233,8 +233,8 @@ func (tw *tokenWorld) race(ch *kernel.Chooser) string {
 		}
 		if killsA(k.kind) {
 			tw.o.Probe("race-kill-ok")
-			if aNow {
-				tw.viol("C08", "revocation-ineffective", "concurrent/"+k.kind, "%s: %s answered success but the access token is still live after the group", desc, k.kind)
+			if aNow && tw.usableAccess(g) {
+				tw.viol("C08", "revocation-ineffective", "concurrent/"+k.kind, "%s: %s answered success but the access token is still live and honoured after the group", desc, k.kind)
 			}
 		}
 		if killsR(k.kind) && rNow {
